@@ -15,7 +15,7 @@ SPEC = {
         ('K-obs', 'obs', 'proper-probability'),
         ('no-raise(update)', 'update', 'no-raise|update:returns')],
     'bounded': [
-        ('totality-and-triples', suites.case_C17, 400, 8000, RULE + '; ' + 'non-trivial = non-empty match; each case also with (y,x,time) triples and placed on the sphere (lat-lon metric)', '')],
+        ('totality-and-triples', suites.case_C17, 1500, 25000, RULE + '; ' + 'non-trivial = non-empty match; each case also with (y,x,time) triples and placed on the sphere (lat-lon metric)', '')],
 }
 
 
